@@ -375,6 +375,11 @@ def run(ctx):
             if "Power" in cname:
                 items[1] = items[1] * 0          # an all-zero member: the special replacement path
             check("%s %s" % (cname, "complex" if cplx else "real"), cname.split("(")[0], c, items, exact=False, multiblock=False, nested=False, one_d=True)
+            # weak members down to and below the "zero signal" threshold, next to ordinary ones: the same function of the member alone and in a batch
+            weak = [torch.randn(16) * s for s in (1e-3, 1.0, 1e-4, 1e-5, 1e-6, 3e-8)]
+            if cplx:
+                weak = [torch.complex(v, torch.randn(16) * float(v.abs().max())) for v in weak]
+            check("%s %s weak members" % (cname, "complex" if cplx else "real"), cname.split("(")[0], c, weak, exact=False, multiblock=False, nested=False, one_d=True)
             # members with more than one dimension: batches of shape (B, 2, 8) and (B, 2, 2, 4)
             for shp in ((2, 8), (2, 2, 4)):
                 check("%s %s members of shape %s" % (cname, "complex" if cplx else "real", shp), cname.split("(")[0], c, [v.reshape(shp) for v in items], exact=False, multiblock=False, nested=False, one_d=False)
